@@ -92,6 +92,14 @@ def check_call(contract: Contract, call: Callable[[], Any], ns_args: Dict[str, A
                 matched = xname
                 break
         if matched is None:
+            for xname, cond in getattr(contract, "raises_if", {}).items():
+                if exc_matches(raised, xname):
+                    ns.__dict__["exc"] = raised
+                    if not bool(cond(ns)):
+                        out.ok = False
+                        out.failed_clause = "raises#%s" % xname
+                        out.detail = "raised %s although its condition does not hold" % xname
+                    return out
             if any(exc_matches(raised, x) for x in contract.may_raise):
                 return out
             out.ok = False
